@@ -1,5 +1,6 @@
 import HypatiaModel.TextIndex
 import HypatiaModel.Spec.TextSpec
+import HypatiaModel.TextScoreBridge
 import Driver.Lexicon
 /-!
 Session `text` (C03, C06 text part).  Strings travel as `u<hex>.<hex>…`.
@@ -16,6 +17,7 @@ Commands:
   reset                                                                    -> ok
   q <query>    apply / applyContains / applyEq        -> `{ids} ## {ids}` | None | err ParseError | err QueryError
   nq <query>   applyNotContains / applyNotEq          -> `{ids} ## {ids}` | err …
+  qk <query>   keys of the SCORED apply (C08/C20 model over this state) ## keys of the key-set model
   obs          indexed/not_indexed/docids + counts    -> `… ## …`   (obsfresh: the same, by c06_text_fresh)
   repr <d>     document_repr(d)                       -> <str> | none   (## the table's tokens, joined)
   tree <query> the parse tree (debugging)
@@ -132,6 +134,29 @@ def step (st : St) (toks : List String) : St × String :=
           if phrasesPlain t then (st, showIdSet r ++ " ## " ++ showIdSet (Spec.notContains st.t t))
           else (st, showIdSet r)
         | .error _ => (st, showIdSet r)
+  | ["qk", q] =>
+    -- the SCORED result of `apply` (C08/C20 model read off this state: `scoreState` / `scoreLex`), keys only,
+    -- against the key-set model's answer (`c20_scored_keys_are_c03_result`)
+    match str? q with
+    | none => (st, "bad-op")
+    | some q =>
+      match parseQuery (lexOf cfg) (spaceOf st) q with
+      | .error _ => (st, "err ParseError")
+      | .ok (t, _) =>
+        if leadingGlobLeaf t then (st, "err QueryError") else
+        let kind : Score.Kind := if st.okapi then .okapi else .cosine
+        let scored : String :=
+          match Score.apply (α := Float) kind (scoreState st.s) (scoreLex cfg st.s) t with
+          | .error .queryError => "err QueryError"
+          | .error (.setops _) => "err SetOps"
+          | .ok none => "None"
+          | .ok (some m) => showIdSet (AMap.keys m)
+        let keys : String :=
+          match exec (indexOf cfg st.s.base) t with
+          | .error _ => "err QueryError"
+          | .ok none => "None"
+          | .ok (some r) => showIdSet r
+        (st, scored ++ " ## " ++ keys)
   | ["tree", q] =>
     match str? q with
     | none => (st, "bad-op")
